@@ -72,6 +72,7 @@ fn main() {
         "thorough" => Tier::Thorough,
         _ => usage(),
     };
+    props::common::MODES_QUICK.store(tier == Tier::Quick, std::sync::atomic::Ordering::Relaxed);
     let seed = std::env::var("VERIF_SEED")
         .ok()
         .and_then(|s| s.parse::<u64>().ok())
